@@ -65,12 +65,22 @@ func ZZ_C12_Remaining() {
 	waited := zzrt.Int64()
 	// the message waited 0 <= waited < E seconds (it has not expired)
 	zzrt.Assume(waited >= 0 && waited < int64(E)*int64(time.Second))
-	at := time.Now()
+	// Read blocks for `idle` before it returns (the subscriber was idle); the message was
+	// queued `waited` before Read returns - before or while the poll was blocked
+	idle := zzrt.Int64()
+	zzrt.Assume(idle >= 0 && idle < 1<<52)
+	zzrt.Observe("idle", idle)
 	zzrt.ClockAdvance(time.Duration(waited))
 	q := &zzRecQueue{}
 	c := &client{version: ver, queueStore: q, out: make(chan packets.Packet, 8), close: make(chan struct{}), opts: &ClientOptions{ClientID: "c1"}}
 	msg := &gmqtt.Message{Topic: "a", QoS: qos, MessageExpiry: E, Payload: []byte{1}}
-	q.script = []*queue.Elem{{At: at, Expiry: at.Add(time.Duration(E) * time.Second), MessageWithID: &queue.Publish{Message: msg}}}
+	el := &queue.Elem{MessageWithID: &queue.Publish{Message: msg}}
+	q.script = []*queue.Elem{el}
+	q.onRead = func() {
+		zzrt.ClockAdvance(time.Duration(idle))
+		el.At = time.Now().Add(-time.Duration(waited))
+		el.Expiry = el.At.Add(time.Duration(E) * time.Second)
+	}
 	_, err := c.pollNewMessages([]packets.PacketID{7})
 	zzrt.Assert(err == nil, "poll-no-error")
 	out := zzDrain(c)
